@@ -19,9 +19,23 @@ import (
 	"github.com/google/gopacket"
 	"github.com/google/gopacket/layers"
 
+	"github.com/veesix-networks/osvbng/pkg/allocator"
+	ipcfg "github.com/veesix-networks/osvbng/pkg/config/ip"
 	"github.com/veesix-networks/osvbng/pkg/dhcp"
 	"github.com/veesix-networks/osvbng/pkg/dhcp4"
 )
+
+// first half of an "asciihex/parsed" token: the configuration string as the operator wrote it
+func c19Str(t string) string {
+	return string(c19Hex(strings.SplitN(t, "/", 2)[0]))
+}
+
+func c19ShowIPN(ip net.IP) string {
+	if ip == nil {
+		return "nil"
+	}
+	return c19Show(ip)
+}
 
 func c19Hex(t string) []byte {
 	if t == "-" {
@@ -154,6 +168,67 @@ func c19Case(f []string) (out string) {
 		}
 		pool.Options = c19Opts(f[10+nd+1:])
 		return c19Frame(p.buildResponse(req, c19IP(f[5]), pool, dhcp4.MessageType(c19U(f[4]))))
+	case "resolve4":
+		// resolve4 xid ci hw mt addr ctxgw ctxmask nctxdns dns.. pgw psid unnum lease npdns pdns.. npools {cidr gw nopts {tag,enc,val/..}..}..
+		// pkg/dhcp.ResolveV4 (address already chosen, no allocator registry) followed by buildResponseFromResolved
+		allocator.ResetGlobalRegistry()
+		req := c19Req(f)
+		ctx := &allocator.Context{IPv4Address: c19IP(f[5]), IPv4Gateway: c19IP(f[6])}
+		if f[7] != "nil" {
+			ctx.IPv4Netmask = net.IPMask(c19Hex(f[7]))
+		}
+		k := 8
+		n := int(c19U(f[k]))
+		k++
+		for i := 0; i < n; i++ {
+			ctx.DNSv4 = append(ctx.DNSv4, c19IP(f[k]))
+			k++
+		}
+		prof := &ipcfg.IPv4Profile{Gateway: c19Str(f[k]), DHCP: &ipcfg.IPv4DHCPOptions{ServerID: c19Str(f[k+1]), LeaseTime: uint32(c19U(f[k+3]))}}
+		if f[k+2] == "1" {
+			prof.DHCP.AddressModel = "unnumbered-ptp"
+		}
+		k += 4
+		n = int(c19U(f[k]))
+		k++
+		for i := 0; i < n; i++ {
+			prof.DNS = append(prof.DNS, c19Str(f[k]))
+			k++
+		}
+		np := int(c19U(f[k]))
+		k++
+		for i := 0; i < np; i++ {
+			pool := ipcfg.IPv4Pool{Network: c19Str(f[k]), Gateway: c19Str(f[k+1]), LeaseTime: 7777}
+			no := int(c19U(f[k+2]))
+			k += 3
+			for j := 0; j < no; j++ {
+				q := strings.SplitN(strings.SplitN(f[k], "/", 2)[0], ",", 3)
+				pool.Options = append(pool.Options, ipcfg.DHCPOption{Tag: uint8(c19U(q[0])), Encoding: string(c19Hex(q[1])), Value: string(c19Hex(q[2]))})
+				k++
+			}
+			prof.Pools = append(prof.Pools, pool)
+		}
+		res := dhcp.ResolveV4(ctx, prof)
+		if res == nil {
+			return "noresolve"
+		}
+		var ds, os []string
+		for _, d := range res.DNS {
+			ds = append(ds, c19ShowIPN(d))
+		}
+		for _, o := range res.Options {
+			os = append(os, strconv.Itoa(int(o.Tag))+":"+c19Show(o.Payload))
+		}
+		dj, oj := "-", "-"
+		if len(ds) > 0 {
+			dj = strings.Join(ds, ",")
+		}
+		if len(os) > 0 {
+			oj = strings.Join(os, ".")
+		}
+		sum := fmt.Sprintf("r=%s s=%s m=%s dns=%s lease=%d nr=%d opts=%s", c19ShowIPN(res.Router), c19ShowIPN(res.ServerID), c19Show(res.Netmask),
+			dj, uint32(res.LeaseTime.Seconds()), len(res.ClasslessRoutes), oj)
+		return sum + " ; " + c19Frame(p.buildResponseFromResolved(req, res, dhcp4.MessageType(c19U(f[4]))))
 	case "resolved":
 		// resolved xid ciaddr hw msgtype yip router serverid mask lease ndns dns.. nroutes routes.. nextra extras..
 		req := c19Req(f)
